@@ -51,3 +51,8 @@ func post_OnRequest_changes(s *Service, res1 bool) bool {
 	n := vs.TraceCount("PubSub).Subscribe") + vs.TraceCount("PubSub).Unsubscribe")
 	return n <= 1 && (n == 0 || vs.TraceFind("NewSsidForPresence") >= 0)
 }
+
+// Notify hands every notification to the delivery queue with an unconditional, blocking send - none is dropped when
+// the queue is full (it blocks instead). Channels are outside the verifier's subset; this is decided on the
+// control-flow graph: one send, no select, on every path to the return.
+//@ structural (*Service).Notify blocking-send props=C18
